@@ -28,6 +28,8 @@ LEVEL_TEXT = {
             "Every live allocation is offered to every allocator that did not hand it out (must return false, capacity figures and patterns unchanged) and to its owner (must return true). Compositions up to depth 3 are driven until the default allocator spills into the fallback and drains again; each instrumented leaf verifies that its memory comes back to it once with the shape of its own allocation."),
     "C09": ("exploration", "5 C09", "call log of an instrumented leaf under 22 wrapper compositions (exactly one leaf request per request, release mirrors the leaf allocation) + tracker callback log",
             "For each composition every top-level request must appear at the leaf as one allocation with at least the bytes/alignment asked for, and every release as one release on the same leaf with the kind/count/size/alignment of that leaf allocation; tracker callbacks are counted and their shape compared."),
+    "C10": ("exploration", "5 C10", "per-allocator call logs of two instrumented RawAllocators under seeded container programs, differential contents against std::allocator containers, equality vs probing allocation, measured node sizes vs X_node_size<T>",
+            "Seeded programs over pairs of containers (11 container kinds, typed and type-erased std_allocator) bound to the same or different allocator objects; a release on the wrong allocator, unbalanced logs, differing contents or an operator== that contradicts where the allocators really allocate are violations. Node size constants are compared with measured requests for a grid of element types and then exercised on a real pool."),
     "C11": ("exploration", "5 C11", "address-range monitor for joint members against the upstream block + release-shape check + exact-fit / one-short requests",
             "All member addresses of seeded joint layouts are checked to lie behind the object inside its single upstream block, disjoint and aligned; one byte less than needed must throw out_of_fixed_memory; reset/destruction must release the block in one call with its allocation parameters; clones must be equal and independent."),
     "C20": ("fault_enumeration", "5 C20", "constructor failure injected at every element index, live-object ledger + upstream balance",
